@@ -173,7 +173,33 @@ def strat_under(draw):
             's': S, 'a': a, 'b': b, 'top': draw(st.sampled_from([False, False, True]))}
 
 
+@st.composite
+def strat_restart(draw):
+    """values in which a setting was inserted below existing ones (topmost=False) on a sub-range and then removed again,
+    followed by a topmost application over a range that contains the former start index"""
+    names = ['red', 'blue', 'bold', 'faint', 'no_bold_faint', 'underline', 'no_underline', 'ul_blue', 'italic', 'bg_red', 'fg_default']
+    n = draw(st.integers(2, 7))
+    t = draw(gen.texts(n, n, nonascii=False))
+    rs = []
+    for _ in range(draw(st.integers(1, 2))):
+        a = draw(st.integers(0, n - 1))
+        rs.append({'s': [{'k': 'name', 'v': draw(st.sampled_from(names))}], 'a': a, 'b': draw(st.one_of(st.none(), st.integers(a + 1, n))), 'top': draw(st.booleans())})
+    ops = []
+    for _ in range(draw(st.integers(1, 2))):
+        low = draw(st.sampled_from(['italic', 'crossed_out', 'bold', 'red']))
+        a = draw(st.integers(0, n - 1))
+        b = draw(st.one_of(st.none(), st.integers(a + 1, n)))
+        ops.append({'op': 'apply', 's': [{'k': 'name', 'v': low}], 'a': a, 'b': b, 'top': False})
+        ops.append({'op': 'remove', 's': [{'k': 'name', 'v': low}], 'a': draw(st.sampled_from([0, a])), 'b': None})
+    a = draw(st.integers(0, max(0, n - 2)))
+    S = [{'k': 'name', 'v': draw(st.sampled_from(names))}]
+    return {'p': {'cls': draw(st.sampled_from(['S', 'S', 's'])), 'ctor': {'k': 'ranges', 't': t, 'r': rs}, 'ops': ops},
+            's': S, 'a': a, 'b': draw(st.one_of(st.none(), st.integers(a + 1, n))), 'top': True}
+
+
 SUBS = [
+    Sub('apply_after_restart', eval_apply, strategy=strat_restart, quick=300, thorough=5000,
+        rule='a setting inserted below (topmost=False) and removed again, then a topmost application across its former start'),
     Sub('apply', eval_apply, strategy=strat, quick=500, thorough=8000),
     Sub('apply_conflict', eval_apply, strategy=strat_under, quick=600, thorough=10000,
         rule='small values with staggered conflicting settings; the new settings conflict with what is there'),
